@@ -279,6 +279,13 @@ func (s *scRun) http(what, method, url string, body []byte) node.Resp {
 	return r
 }
 
+// get records the normalised answer of a read in the transcript (the two runs must agree on it).
+func (s *scRun) get(what, url string) {
+	r, err := s.n.HTTP("GET", url, nil)
+	must(err, s.name+": "+what)
+	s.log = append(s.log, fmt.Sprintf("%s = %d %s", what, r.Status, snap.NormJSON(r.Bytes())))
+}
+
 func (s *scRun) call(what, fn string, args interface{}) bool {
 	err := s.n.Call(fn, args, nil)
 	if err != nil && !s.n.Alive() {
@@ -571,6 +578,30 @@ var c03ScenarioList = []c03Scenario{
 		s.http("merge 1 <- 2", "POST", "/api/node/"+a+"/seg/merge", []byte(`[1,2]`))
 		r := s.http("cleave", "POST", "/api/node/"+a+"/seg/cleave/1", []byte(`[2]`))
 		s.note("cleaved label %s", jsonField(r.Bytes(), "CleavedLabel"))
+		s.restart(false, false)
+	}},
+	{"instance-settings-changed-in-place", func(s *scRun) {
+		// settings that are rewritten in place (no key added or removed) must survive a restart that follows at once
+		a := scNewRepo(s, "newrepo", `{"alias":"a"}`)
+		s.http("keyvalue instance with tags", "POST", "/api/repo/"+a+"/instance", []byte(`{"typename":"keyvalue","dataname":"kv","Tags":"type=meshes,owner=a"}`))
+		s.http("uint8blk instance", "POST", "/api/repo/"+a+"/instance", []byte(`{"typename":"uint8blk","dataname":"gray","BlockSize":"32,32,32"}`))
+		s.restart(true, false)
+		s.http("change the value of an existing tag", "POST", "/api/node/"+a+"/kv/tags", []byte(`{"owner":"b"}`))
+		s.restart(false, false)
+		s.get("tags", "/api/node/"+a+"/kv/tags")
+		s.http("change it back and another one", "POST", "/api/node/"+a+"/kv/tags", []byte(`{"owner":"a","type":"skeletons"}`))
+		s.restart(true, false)
+		s.get("tags", "/api/node/"+a+"/kv/tags")
+		s.http("replace all tags by one of the same keys", "POST", "/api/node/"+a+"/kv/tags?replace=true", []byte(`{"owner":"c"}`))
+		s.restart(false, false)
+		s.get("tags", "/api/node/"+a+"/kv/tags")
+		s.http("resolution", "POST", "/api/node/"+a+"/gray/resolution", []byte(`[4.0,4.0,40.0]`))
+		s.restart(true, false)
+		s.http("resolution changed in place", "POST", "/api/node/"+a+"/gray/resolution", []byte(`[8.0,8.0,40.0]`))
+		s.restart(false, false)
+		s.http("repo alias", "POST", "/api/repo/"+a+"/info", []byte(`{"alias":"renamed"}`))
+		s.restart(true, false)
+		s.http("repo description", "POST", "/api/repo/"+a+"/info", []byte(`{"description":"d2"}`))
 		s.restart(false, false)
 	}},
 	{"label-operations-on-synced-instances-after-a-restart", func(s *scRun) {
